@@ -1069,7 +1069,7 @@ func runEnroll(c *engine.Ctx) engine.Result {
 		r.Require("params_compared:"+st, int64(perFlow[world.FlowWrapper]+perFlow[world.FlowRewrapped])/4)
 	}
 	for _, k := range []string{"none", "handler-default", "explicit-nil"} {
-		r.Require("token_state_vs_fetch_option:"+k, int64(perFlow[world.FlowToken])/3/6)
+		r.Require("token_state_vs_fetch_option:"+k, int64(perFlow[world.FlowToken])/4/8)
 	}
 	r.Require("client_configs_with_options_cover_2_valid_chains", n/4)
 	for _, k := range []string{"aead", world.WrapPooled, world.WrapEnvelope} {
